@@ -39,6 +39,7 @@ pub fn run(modelrun: &str) {
         for (i, op) in parts[1..].iter().enumerate() {
             out::line(&format!("C {case} {i} {op}"));
             let t: Vec<&str> = op.split(' ').collect();
+            let mut listing = String::from("[]");
             out::arm(&format!("{case} {i}"), 5000);
             let r = catch_unwind(AssertUnwindSafe(|| match t[0] {
                 "QPUSH" => {
@@ -59,7 +60,9 @@ pub fn run(modelrun: &str) {
                 "QFROMSTR" => {
                     // text of a queue holding these orders, printed by the library itself
                     let v: Vec<Arc<OrderType<()>>> = parse_list(t[1]).into_iter().map(Arc::new).collect();
-                    let text = OrderQueue::from_vec(v).to_string();
+                    let q1 = OrderQueue::from_vec(v);
+                    listing = list_str(&q1.to_vec(), |o| str_of_order(o));
+                    let text = q1.to_string();
                     match OrderQueue::from_str(&text) {
                         Ok(n) => {
                             q = n;
@@ -71,6 +74,8 @@ pub fn run(modelrun: &str) {
                 "QFROMJSON" => {
                     let v: Vec<Arc<OrderType<()>>> = parse_list(t[1]).into_iter().map(Arc::new).collect();
                     let text = serde_json::to_string(&OrderQueue::from_vec(v)).unwrap();
+                    let listed: Vec<OrderType<()>> = serde_json::from_str(&text).unwrap_or_default();
+                    listing = list_str(&listed, |o| str_of_order(o));
                     match serde_json::from_str::<OrderQueue>(&text) {
                         Ok(n) => {
                             q = n;
@@ -84,7 +89,10 @@ pub fn run(modelrun: &str) {
             out::disarm();
             out::line(&format!("I {}", r.unwrap_or_else(|_| "panic".into())));
             let cmd = match t[0] {
-                "QFROMVEC" | "QFROMSTR" | "QFROMJSON" => format!("QFROM {}", t[1]),
+                "QFROMVEC" => format!("QFROM {}", t[1]),
+                // the order in which the text lists the orders is DashMap iteration order (sorted by
+                // timestamp for the text form): an oracle value handed to the model
+                "QFROMSTR" | "QFROMJSON" => format!("QFROM {}", listing),
                 _ => op.to_string(),
             };
             let m = model.call(&cmd);
